@@ -1,22 +1,37 @@
 """C06 — malformed or hostile files yield an error, never a panic, hang or memory blow-up.
-Partial by nature (DESIGN.md section 5/C06).  Three parts:
- 1. proof: the totality / no-Panic theorems of the modelled parsers (Properties/C06.v);
- 2. function-level malformed streams: every other property module that exposes
-    `malformed(ctx)` is run here (model predicts Ok / Err / Panic for each malformed input and
-    must agree with the code; an unpredicted panic is a violation);
- 3. whole-file fault enumeration: single- and multi-fault mutations of the repository fixtures
-    (and generated workbooks) through every reader and every read call, under a capped allocator,
-    a per-case watchdog and an address-space limit.  A failure is keyed by
-    (source file, enclosing function, failure class) taken from the panic location — never a
-    line number — and compared with the known findings of known_findings.json."""
-import hashlib, importlib, os, re, shutil, vlib, mutate
+Partial by nature (DESIGN.md section 5/C06).  Parts:
+ 1. proof: totality / fuel / allocation-bound theorems of Properties/C06.v (Totality.v: hardened VBA
+    decompressor, sector-chain walk, cell-reference parser; re-exports of the no-Panic lemmas of the
+    other properties' models);
+ 2. correspondence of the hardened copies of Totality.v with the code (commands `tot_*`);
+ 3. function-level malformed streams: every other property module that exposes `malformed(ctx)`;
+ 4. whole-file fault enumeration through every reader and every read call (`open … everything`),
+    under a capped allocator (relative to the input size), a per-case watchdog and an address-space
+    limit:
+      a. corpus/C06: one witness per failure site that was repaired (a reverted fix fails here
+         first) and one per known finding;
+      b. systematic pass: for a few seed files, each structure (BIFF / xlsb record, CFB header field,
+         FAT / DIFAT / mini FAT / directory entry, zip member, XML element, attribute and text, VBA dir
+         record, compressed chunk) x each truncation length x each boundary value — no randomness;
+      c. random single- and multi-fault mutations (blind and record-aware) of every fixture.
+A failure is keyed `file::function::class` from the innermost calamine frame of the backtrace that
+is not a src/utils.rs helper — never a line number — and compared with notes/C06_known.json."""
+import hashlib, importlib, json, os, re, shutil, time, warnings, vlib, mutate
+
+warnings.filterwarnings("ignore", category=UserWarning, module="zipfile")
 
 ASSUMPTIONS = [
-    "allocation blow-up = a single request above 512 MiB (capped allocator) or exhaustion of an 8 GB address space; hang = a case exceeding the watchdog limit (10 s for inputs below 2 MB)",
+    "allocation blow-up = a single request above 64 MiB + 1000 x input size (capped allocator; never above 512 MiB) or exhaustion of a 4 GB address space; hang = a case exceeding the 10 s watchdog (inputs are below 2 MB); unbounded recursion = overflow of a 2 MiB stack (the default of a Rust thread; the case runs on a thread of that size)",
     "zip and quick-xml internals, the allocator and real time are sampled by this run only, not modelled",
+    "totality theorems cover decompress_stream, Sectors::get_chain and get_row_and_optional_column (hardened copies in Totality.v tied by the tot_* correspondence) plus the re-exported lemmas; every other parser is covered by the fault enumeration only",
 ]
 FMT_EXT = {"xlsx": "xlsx", "xlsb": "xlsb", "xls": "xls", "ods": "ods"}
+ENV = {"VH_PANIC_INFO": "1", "VH_CASE_TIMEOUT_MS": "10000", "VH_ALLOC_REL": "67108864:1000", "VH_STACK_MB": "2"}
+CORPUS = os.path.join(vlib.ROOT, "corpus", "C06")
+KNOWN_FILE = os.path.join(vlib.ROOT, "notes", "C06_known.json")
 _fn_cache = {}
+
+# ------------------------------------------------------------------ failure keys
 
 def enclosing_fn(path, line):
     """name of the function that contains path:line (nearest preceding `fn name`)"""
@@ -41,37 +56,71 @@ def failure_class(msg):
     if "verif-alloc-cap" in m or "capacity overflow" in m or "memory allocation" in m:
         return "alloc"
     if "index out of bounds" in m or "out of range for slice" in m or "slice index" in m or "range end index" in m \
-       or "range start index" in m or "byte index" in m or "mid > len" in m or "removal index" in m or "is out of bounds" in m:
+       or "range start index" in m or "byte index" in m or "mid > len" in m or "removal index" in m or "is out of bounds" in m \
+       or "char boundary" in m:
         return "index"
     if "overflow" in m or "attempt to" in m:
         return "overflow"
     if "unwrap()" in m or "expect" in m or "called `option" in m or "called `result" in m:
         return "unwrap"
-    if "assert" in m:
+    if "assert" in m or "invalid range bounds" in m:
         return "assert"
     if "not implemented" in m or "unreachable" in m or "not yet implemented" in m:
         return "unimplemented"
     if "chunk size must be non-zero" in m or "chunks" in m:
         return "index"
+    if "no entry found for key" in m:
+        return "index"
     return "panic"
 
+def repo_src():
+    return os.path.join(os.environ.get("VERIF_REPO", vlib.REPO), "src")
+
+def symbol_site(sym):
+    """'calamine::xlsx::cells_reader::XlsxCellReader::next_formula::h…' -> ('xlsx/cells_reader.rs', 'next_formula')"""
+    s = re.sub(r"::h[0-9a-f]{16}$", "", sym.strip())
+    s = s.split(" as ")[0]                      # <calamine::auto::Sheets<RS> as calamine::ReaderRef<RS>>::f
+    tail = re.sub(r"<[^<>]*>", "", sym)         # function name: last identifier of the whole symbol
+    while re.search(r"<[^<>]*>", tail):
+        tail = re.sub(r"<[^<>]*>", "", tail)
+    tail = re.sub(r"::h[0-9a-f]{16}$", "", tail.strip())
+    idents = [x for x in re.split(r"::", tail) if re.match(r"^[A-Za-z_][A-Za-z_0-9]*$", x.strip(">< "))]
+    fn = idents[-1].strip(">< ") if idents else "?"
+    while re.search(r"<[^<>]*>", s):
+        s = re.sub(r"<[^<>]*>", "", s)
+    segs = [x.strip("<> ") for x in s.split("::")]
+    segs = segs[1:] if segs and segs[0].endswith("calamine") else segs
+    mods = []
+    for x in segs:
+        if re.match(r"^[a-z_][a-z_0-9]*$", x):
+            mods.append(x)
+        else:
+            break
+    src = repo_src()
+    f = "lib.rs"
+    for k in range(len(mods), 0, -1):
+        cand = ["/".join(mods[:k]) + ".rs", "/".join(mods[:k]) + "/mod.rs"]
+        hit = [c for c in cand if os.path.exists(os.path.join(src, c))]
+        if hit:
+            f = hit[0]
+            break
+    return f, fn
+
 def failure_key(info):
-    """'<message> @ <file>:<line>' -> 'file::function::class' (no line numbers)"""
+    """'<message> @ <site>' -> 'file::function::class' (no line numbers)"""
     msg, _, loc = info.rpartition(" @ ")
     cls = failure_class(msg)
-    if loc.strip().startswith("fn:"):
-        # symbol of the requesting frame, e.g. calamine::cfb::Sectors::get::h0123… or <calamine::…>::f
-        sym = re.sub(r"::h[0-9a-f]{16}$", "", loc.strip()[3:])
-        sym = re.sub(r"<[^>]*>", "_", sym)
-        sym = re.sub(r"\{\{closure\}\}(::)?", "", sym).rstrip(":")
-        return "calamine/%s::%s" % (sym.replace("calamine::", ""), cls)
-    m = re.match(r"(.*):(\d+)$", loc.strip())
+    loc = loc.strip()
+    if loc.startswith("fn:"):
+        f, fn = symbol_site(loc[3:])
+        return "%s::%s::%s" % (f, fn, cls)
+    m = re.match(r"(.*):(\d+)$", loc)
     if not m:
         return "unknown::?::" + cls
     path, line = m.group(1), int(m.group(2))
     fn = enclosing_fn(path, line)
-    if path.startswith(vlib.REPO + "/") or path.startswith(os.environ.get("VERIF_REPO", "\0")):
-        short = "calamine/" + path.split("/src/", 1)[-1]
+    if "/src/" in path and (path.startswith(vlib.REPO + "/") or path.startswith(os.environ.get("VERIF_REPO", "\0"))):
+        short = path.split("/src/", 1)[-1]
     elif "/registry/src/" in path:
         crate = path.split("/registry/src/", 1)[1].split("/", 2)
         short = crate[1] + "/" + crate[2] if len(crate) > 2 else crate[-1]
@@ -82,8 +131,15 @@ def failure_key(info):
         short = path
     return "%s::%s::%s" % (short, fn, cls)
 
-def known_keys(ctx):
-    return {f["id"]: f for f in ctx.known.get("findings", []) if f["property"] == "C06"}
+def load_known(ctx):
+    """known findings of this property: known_findings.json plus notes/C06_known.json (the list
+    this slice delivers; merged into ctx.known so that the check prints the texts)"""
+    have = {f["id"] for f in ctx.known.get("findings", []) if f.get("property") == "C06"}
+    if os.path.exists(KNOWN_FILE):
+        for f in json.load(open(KNOWN_FILE)):
+            if f["id"] not in have:
+                ctx.known.setdefault("findings", []).append(f)
+    return {f["id"]: f for f in ctx.known.get("findings", []) if f.get("property") == "C06"}
 
 def classify_answer(ans):
     """-> (outcome class, key or None).  outcome: ok | err | panic | alloc | timeout | abort"""
@@ -102,66 +158,225 @@ def classify_answer(ans):
         return "err", None
     return "ok", None
 
-def file_sources(ctx):
+# ------------------------------------------------------------------ running cases
+
+class Batch:
+    """cases = (fmt, source name, fault kind, bytes); written to a temp dir, run through the reader
+    of their format and through the auto-detecting one, classified, then removed"""
+    def __init__(self, ctx, tag, auto_every=1, size=6000):
+        self.ctx, self.tag, self.auto_every, self.size = ctx, tag, auto_every, size
+        self.tmp = vlib.tmpdir(ctx)
+        self.lines, self.meta, self.k = [], {}, 0
+        self.known = load_known(ctx)
+        self.failures = {}          # key -> [(bytes size, fmt, reader, kind, source, path)]
+        self.collect = None         # when set: dict key -> list of witnesses (corpus building)
+
+    def add(self, fmt, src, kind, data, readers=None):
+        path = os.path.join(self.tmp, "%s%d.%s" % (self.tag, self.k, FMT_EXT[fmt]))
+        with open(path, "wb") as f:
+            f.write(data)
+        rds = readers or ([fmt, "auto"] if self.k % self.auto_every == 0 else [fmt])
+        for rd in rds:
+            lid = "%s%d%s" % (self.tag, self.k, "A" if rd == "auto" else rd[0] if rd in ("ods",) else rd[:4])
+            self.lines.append("%s\topen\t%s\t%s\teverything" % (lid, rd, path))
+            self.meta[lid] = (fmt, src, kind, path, rd, len(data))
+        self.k += 1
+        if len(self.lines) >= self.size:
+            self.flush()
+
+    def flush(self):
+        ctx = self.ctx
+        if not self.lines:
+            return
+        t0 = time.time()
+        impl = ctx.run_impl(self.lines, timeout=1500, env=ENV)
+        # a timeout or an abort may be an artefact of machine load: re-run such cases alone, with
+        # the same limit, and believe only what reproduces
+        retry = [l for l in self.lines if classify_answer(impl.get(l.split("\t", 1)[0]))[0] in ("timeout", "abort")]
+        if retry:
+            ctx.count("retried_alone", len(retry))
+            for l in retry[:60]:
+                r = vlib.run_exe(vlib.VH, [l], timeout=60, shards=1, env=ENV)
+                impl.update(r)
+        ctx.count("phase_s:" + self.tag, round(time.time() - t0, 1))
+        for lid, (fmt, src, kind, path, rd, size) in self.meta.items():
+            out, key = classify_answer(impl.get(lid))
+            ctx.count("outcome:" + out)
+            ctx.traces += 1
+            if out in ("ok", "err"):
+                ctx.nontrivial(lid + kind)
+                continue
+            if self.collect is not None:
+                self.collect.setdefault(key, []).append((size, fmt, rd, kind, src, open(path, "rb").read(),
+                                                          (impl.get(lid) or out).split(";;")[-1][:200]))
+                continue
+            if key in self.known:
+                ctx.known_hits.setdefault(key, {"file": src, "mutation": kind, "reader": rd})
+                continue
+            if key not in self.failures:
+                keep = os.path.join(vlib.ROOT, "replays", "C06-" + hashlib.sha1(key.encode()).hexdigest()[:10] + "." + FMT_EXT[fmt])
+                os.makedirs(os.path.dirname(keep), exist_ok=True)
+                shutil.copy(path, keep)
+                self.failures[key] = keep
+                ctx.violations.append({"case": "open %s %s everything" % (rd, keep), "expected": "Ok or Err",
+                                       "actual": (impl.get(lid) or "abort").split(";;")[-1][:300], "model": "",
+                                       "what": "%s at %s (fault %s on %s, reader %s)" % (out, key, kind, src, rd)})
+        for (_, _, _, path, _, _) in self.meta.values():
+            try:
+                os.remove(path)
+            except OSError:
+                pass
+        self.lines, self.meta = [], {}
+
+    def close(self):
+        self.flush()
+        shutil.rmtree(self.tmp, ignore_errors=True)
+
+def fixture(name):
+    return os.path.join(vlib.FIXTURE_DIR, name)
+
+def all_fixtures():
     src = [(vlib.fmt_of_ext(e), p) for e, p in vlib.fixtures(("xlsx", "xlsm", "xlsb", "xls", "ods", "xla", "xlam"))]
-    try:
-        import gensheets
-        src += gensheets.generate(ctx, n=ctx.scale(10, 100))
-    except ImportError:
-        pass
     return [(f, p) for f, p in src if os.path.getsize(p) < 2_000_000]
 
-def run_files(ctx, n_mut, tag):
-    tmp = vlib.tmpdir(ctx)
-    srcs = file_sources(ctx)
-    lines, meta = [], {}
-    k = 0
+# seeds of the systematic pass: (fixture, which generators)
+SEEDS_QUICK = [
+    ("issues.xls", "xls", ("cfb", "biff", "vba")),          # BIFF8: SST, formulas, names, extern sheets, VBA project
+    ("biff5_write.xls", "xls", ("biff",)),                   # BIFF5: Label, Number, BoolErr
+    ("merge_cells.xls", "xls", ("biff-only", (0x00E5, 0x00BD, 0x027E, 0x0200))),
+    ("issues.xlsb", "xlsb", ("zip", "xlsb")),
+    ("date.xlsb", "xlsb", ("xlsb-parts", r"styles\.bin")),      # custom number formats (BrtFmt)
+    ("issues.xlsx", "xlsx", ("zip", "xml")),
+    ("temperature-table.xlsx", "xlsx", ("xml-parts", r"(tables/|_rels/sheet)")),
+    ("vba.xlsm", "xlsx", ("vba",)),
+    ("any_sheets.ods", "ods", ("zip", "xml")),
+    ("with-annotation.ods", "ods", ("xml-parts", r"content\.xml")),
+]
+SEEDS_THOROUGH = SEEDS_QUICK + [
+    ("any_sheets.xls", "xls", ("cfb", "biff", "vba")),
+    ("date.xls", "xls", ("biff",)),
+    ("xls_formula.xls", "xls", ("biff",)),
+    ("any_sheets.xlsb", "xlsb", ("zip", "xlsb")),
+    ("date.xlsb", "xlsb", ("xlsb",)),
+    ("any_sheets.xlsx", "xlsx", ("zip", "xml")),
+    ("merge_cells.xlsx", "xlsx", ("xml",)),
+    ("richtext-namespaced.xlsx", "xlsx", ("xml",)),
+    ("issue221.xlsm", "xlsx", ("vba",)),
+    ("number_rows_repeated.ods", "ods", ("xml",)),
+    ("covered.ods", "ods", ("xml",)),
+]
+
+def seed_faults(fmt, data, gens, per_key):
+    g = gens[0]
+    if g == "biff-only":
+        name, stream = mutate.xls_workbook_stream(data)
+        if stream is None:
+            return
+        c = mutate.Cfb(data)
+        others = c.streams()
+        recs = mutate.biff_records(stream)
+        done = set()
+        for i, (o, t, b) in enumerate(recs):
+            if t in gens[1] and t not in done:
+                done.add(t)
+                for kind, nb in mutate.body_faults(b, window=48):
+                    m = list(recs)
+                    m[i] = (o, t, nb)
+                    ns = mutate.biff_join(m)
+                    yield "biff-%04x#%d-%s" % (t, i, kind), mutate.cfb_rebuild([(n, ns if n == name else x) for n, x in others])
+        return
+    if g == "xlsb-parts":
+        members = mutate.zip_members(data)
+        for n, b in members:
+            if re.search(gens[1], n):
+                for kind, nb in mutate.systematic_xlsb_part(b, per_key=per_key):
+                    yield "%s@%s" % (kind, n), mutate.zip_replace(members, n, nb)
+        return
+    if g == "xml-parts":
+        yield from mutate.crafted_xlsx_layouts(data)
+        members = mutate.zip_members(data)
+        extra = mutate.ODS_EXTRA if fmt == "ods" else mutate.XLSX_EXTRA
+        for n, b in members:
+            if re.search(gens[1], n) and (n.endswith((".xml", ".rels"))):
+                for kind, nb in mutate.systematic_xml(b, extra):
+                    yield "%s@%s" % (kind, n), mutate.zip_replace(members, n, nb)
+        return
+    for g in gens:
+        if g == "cfb":
+            yield from mutate.systematic_cfb(data)
+        elif g == "biff":
+            yield from mutate.systematic_xls(data, per_key=per_key)
+        elif g == "vba":
+            yield from mutate.systematic_vba(fmt, data)
+        elif g == "zip":
+            yield from mutate.systematic_zip_container(data)
+        elif g == "xlsb":
+            yield from mutate.systematic_xlsb(data, per_key=per_key)
+        elif g == "xml":
+            yield from mutate.systematic_zip_xml(fmt, data)
+
+def run_systematic(ctx, batch=None):
+    own = batch is None
+    b = batch or Batch(ctx, "s", auto_every=4)
+    seeds = SEEDS_THOROUGH if ctx.tier == "thorough" else SEEDS_QUICK
+    for (name, fmt, gens) in seeds:
+        p = fixture(name)
+        if not os.path.exists(p):
+            ctx.notes.append("seed fixture missing: " + name)
+            continue
+        data = open(p, "rb").read()
+        n = 0
+        for kind, mut in seed_faults(fmt, data, gens, 2 if ctx.tier == "thorough" else 1):
+            b.add(fmt, name, kind, mut)
+            n += 1
+        ctx.count("systematic:" + name, n)
+    if own:
+        b.close()
+
+def run_random(ctx, n_mut, batch=None):
+    own = batch is None
+    b = batch or Batch(ctx, "m", auto_every=1)
+    srcs = all_fixtures()
     for (f, p) in srcs:
         data = open(p, "rb").read()
         for j in range(n_mut):
-            faults = 1 if ctx.rng.random() < 0.8 else ctx.rng.randrange(2, 5)
-            kind, mut = mutate.mutate_file(f, data, ctx.rng, faults)
-            path = os.path.join(tmp, "%s%d.%s" % (tag, k, FMT_EXT[f]))
-            open(path, "wb").write(mut)
-            for rd in (f, "auto"):
-                lid = "%s%d%s" % (tag, k, rd[0] if rd != "auto" else "A")
-                lines.append("%s\topen\t%s\t%s\teverything" % (lid, rd, path))
-                meta[lid] = (f, p, kind, path, rd)
-            ctx.count("mut:" + re.sub(r"[@:].*", "", kind.split("+")[0]))
+            faults = 1 if ctx.rng.random() < 0.7 else ctx.rng.randrange(2, 5)
+            if ctx.rng.random() < 0.5:
+                kind, mut = mutate.mutate_file(f, data, ctx.rng, faults)
+            else:
+                kind, mut = mutate.mutate_structured(f, data, ctx.rng, faults)
+            b.add(f, os.path.basename(p), kind, mut)
+            ctx.count("mut:" + re.sub(r"[@:#\[=].*", "", kind.split("+")[0]))
             ctx.count("fmt:" + f)
-            k += 1
-    env = {"VH_PANIC_INFO": "1", "VH_CASE_TIMEOUT_MS": "10000"}
-    impl = ctx.run_impl(lines, timeout=1500, env=env)
-    known = known_keys(ctx)
-    seen_new = {}
-    # a timeout or an abort may be an artefact of machine load: re-run such cases alone, with a
-    # generous limit, and believe only what reproduces
-    retry = [l for l in lines if classify_answer(impl.get(l.split("\t", 1)[0]))[0] in ("timeout", "abort")]
-    if retry:
-        ctx.count("retried_alone", len(retry))
-        for l in retry[:40]:
-            r = vlib.run_exe(vlib.VH, [l], timeout=200, shards=1, env={"VH_PANIC_INFO": "1", "VH_CASE_TIMEOUT_MS": "60000"})
-            impl.update(r)
-    for lid, (f, p, kind, path, rd) in meta.items():
-        out, key = classify_answer(impl.get(lid))
-        ctx.count("outcome:" + out)
-        ctx.traces += 1
-        if out in ("ok", "err"):
-            ctx.nontrivial(lid + kind)
+    ctx.sample({"random_mutations_per_file": n_mut, "files": len(srcs)})
+    if own:
+        b.close()
+
+def run_corpus(ctx):
+    """corpus/C06: witnesses of repaired failure sites (must be Ok/Err now) and of known findings"""
+    idx = os.path.join(CORPUS, "index.json")
+    if not os.path.exists(idx):
+        ctx.notes.append("no corpus/C06/index.json")
+        return
+    b = Batch(ctx, "c", auto_every=1)
+    entries = json.load(open(idx))
+    for e in entries:
+        p = os.path.join(CORPUS, e["file"])
+        if not os.path.exists(p):
+            ctx.notes.append("corpus file missing: " + e["file"])
             continue
-        if key in known:
-            ctx.known_hits[key] = {"file": os.path.basename(p), "mutation": kind}
-            continue
-        if key not in seen_new:
-            keep = os.path.join(vlib.ROOT, "replays", "C06-" + hashlib.sha1(key.encode()).hexdigest()[:10] + "." + FMT_EXT[f])
-            os.makedirs(os.path.dirname(keep), exist_ok=True)
-            shutil.copy(path, keep)
-            seen_new[key] = True
-            ctx.violations.append({"case": "open %s %s everything" % (rd, keep), "expected": "Ok or Err",
-                                   "actual": (impl.get(lid) or "abort").split(";;")[-1][:300], "model": "",
-                                   "what": "%s at %s (mutation %s of %s)" % (out, key, kind, os.path.basename(p))})
-    ctx.sample({"mutations_per_file": n_mut, "files": len(srcs), "example": lines[0] if lines else ""})
-    shutil.rmtree(tmp, ignore_errors=True)
+        b.add(e["fmt"], "corpus/" + e["file"], e.get("fault", "") + " [was " + e.get("key", "?") + "]", open(p, "rb").read(),
+              readers=[e.get("reader", e["fmt"])])
+    ctx.count("corpus_files", len(entries))
+    b.close()
+
+def run_valid_fixtures(ctx):
+    """the unmutated fixtures under the same limits: the relative allocation cap and the watchdog
+    must not flag legitimate behaviour"""
+    b = Batch(ctx, "v", auto_every=1)
+    for (f, p) in all_fixtures():
+        b.add(f, os.path.basename(p), "unmutated", open(p, "rb").read())
+    b.close()
 
 def run_function_level(ctx):
     """malformed streams of the other properties' modules (model predicts the outcome class)"""
@@ -189,21 +404,107 @@ def run_function_level(ctx):
                                            "actual": str(dg.get("impl"))[:200], "model": str(dg.get("model"))[:200],
                                            "what": "unpredicted failure in %s" % dg.get("function", f[:-3])})
 
+def run_totality(ctx):
+    try:
+        from props import c06_tot
+    except Exception as e:
+        ctx.notes.append("totality correspondence not available: %s" % e)
+        return
+    c06_tot.run(ctx)
+
 def run(ctx):
+    load_known(ctx)
+    run_corpus(ctx)
+    run_valid_fixtures(ctx)
+    run_totality(ctx)
     run_function_level(ctx)
-    run_files(ctx, ctx.scale(12, 300), "m")
+    run_systematic(ctx)
+    run_random(ctx, ctx.scale(6, 600))
 
 def search(ctx):
-    run_files(ctx, ctx.scale(60, 600), "s")
+    run_random(ctx, ctx.scale(60, 600))
+
+def run_only(ctx, what):
+    load_known(ctx)
+    for w in what.split(","):
+        if w == "random":
+            run_random(ctx, ctx.scale(40, 300))
+        elif w == "systematic":
+            run_systematic(ctx)
+        elif w == "corpus":
+            run_corpus(ctx)
+        elif w == "valid":
+            run_valid_fixtures(ctx)
+        elif w == "function":
+            run_function_level(ctx)
+        elif w == "totality":
+            run_totality(ctx)
+        elif w == "buildcorpus":
+            build_corpus(ctx)
 
 def replay(ctx, rep):
-    case = rep.get("case", "")
+    case = rep.get("case", "") or ""
+    if "\t" in case:
+        # a correspondence case (function-level): the stored line itself, through both sides
+        impl, model = ctx.run_both([case])
+        lid = case.split("\t", 1)[0]
+        print("impl :", impl.get(lid)); print("model:", model.get(lid))
+        return 0 if impl.get(lid) == model.get(lid) and impl.get(lid) is not None else 1
     m = re.match(r"open (\S+) (\S+) everything", case)
     if not m:
         print("cannot replay:", case); return 2
     line = "r\topen\t%s\t%s\teverything" % (m.group(1), m.group(2))
-    out = ctx.run_impl([line], env={"VH_PANIC_INFO": "1", "VH_CASE_TIMEOUT_MS": "10000"})
+    out = ctx.run_impl([line], env=ENV)
     print(out.get("r"))
     o, key = classify_answer(out.get("r"))
     print("outcome:", o, "key:", key)
     return 0 if o in ("ok", "err") else 1
+
+# ------------------------------------------------------------------ corpus building (development)
+
+def build_corpus(ctx, n_random=40, per_group=1):
+    """Runs the systematic pass (thorough seeds) and random faults against the tree named by
+    VERIF_REPO (meant: the tree BEFORE the hardening commits) and keeps, for every distinct panic
+    site (failure key + source line on that tree), the smallest failing file under corpus/C06."""
+    global ENV
+    old_env = ENV
+    ENV = dict(ENV, VH_PANIC_LOC="1")
+    coll = {}
+    tier = ctx.tier
+    ctx.tier = "thorough"
+    b = Batch(ctx, "b", auto_every=3)
+    b.collect = coll
+    run_systematic(ctx, b)
+    b.flush()
+    b.auto_every = 1
+    run_random(ctx, n_random, b)
+    b.close()
+    ctx.tier = tier
+    ENV = old_env
+    groups = {}
+    for key, ws in coll.items():
+        for (size, fmt, rd, kind, src, data, ans) in ws:
+            m = re.search(r"\[at ([^\]]*)\]", ans)
+            site = m.group(1) if m else re.sub(r"[#@=\[].*", "", kind)
+            site = re.sub(r"^.*/src/", "", site)
+            g = (key, site)
+            groups.setdefault(g, []).append((size, kind, fmt, rd, src, data, ans))
+    os.makedirs(CORPUS, exist_ok=True)
+    idx_path = os.path.join(CORPUS, "index.json")
+    entries = json.load(open(idx_path)) if os.path.exists(idx_path) else []
+    have = {(e["key"], e.get("site")) for e in entries}
+    n = len(entries)
+    for g in sorted(groups):
+        if g in have:
+            continue
+        ws = sorted(groups[g], key=lambda w: (w[0], w[1]))
+        for (size, kind, fmt, rd, src, data, ans) in ws[:per_group]:
+            name = "w%03d.%s" % (n, FMT_EXT[fmt])
+            open(os.path.join(CORPUS, name), "wb").write(data)
+            entries.append({"file": name, "fmt": fmt, "reader": rd, "key": g[0], "site": g[1], "fault": kind, "source": src,
+                            "was": re.sub(r"\s+", " ", ans)[:160]})
+            n += 1
+    json.dump(entries, open(idx_path, "w"), indent=1)
+    print("corpus: %d groups, %d entries" % (len(groups), len(entries)))
+    for g in sorted(groups):
+        print("   %-60s %-34s %5d cases" % (g[0], g[1], len(groups[g])))
